@@ -1032,3 +1032,58 @@ class PaintOnHarness(SccHarness):
 
 register(RollUpHarness())
 register(PaintOnHarness())
+
+
+# ---------------------------------------------------------------------------
+# robustness: every short sequence over a menu of words, in any order (also sequences no protocol allows)
+
+ROBUST_MENU = [w_misc("RCL"), w_misc("RU2"), w_misc("RDC"), w_misc("EDM"), w_misc("ENM"), w_misc("EOC"), w_misc("CR"),
+               w_misc("BS"), w_misc("DER"), w_tab(1), w_pac(15, indent=4), w_pac(2, color="red"), w_midrow(italic=True), w_special(7),
+               w_ext(1, 0), w_text("AB"), w_text(" "), w_misc("RCL", 2), 0x0000, 0x1020, 0x172D]
+
+
+class SccRobustHarness(Harness):
+  name = "c08_robust"
+  properties = ("C18",)
+  functions = SccHarness.functions
+  assumptions = ("word sequences are drawn by selector variables from a %d-word menu (every mode code, erase/flip/roll codes, backspace, "
+                 "delete to end of row, tab offset, PACs, mid-row, special, extended, text, channel-2 code, null, background attribute "
+                 "codes); every control word is sent once or doubled as a whole-stream choice" % len(ROBUST_MENU),)
+  outside = ("sequences longer than the bound",)
+  required_witnesses = ("document-returned",)
+  bounds = {"quick": "all sequences of 1-3 menu words after each of the %d possible first words, single and doubled" % len(ROBUST_MENU),
+            "thorough": "all sequences of 1-4 menu words"}
+  budget_s = {"quick": 300, "thorough": 2400}
+  validate_models = 2
+
+  def partitions(self, tier):
+    return [{"first": i, "doubled": d} for i in range(len(ROBUST_MENU)) for d in (0, 1)]
+
+  def body(self, ex, params):
+    n = 3 if ex.tier == "quick" else 4
+    seq = [ROBUST_MENU[params["first"]]]
+    for k in range(1, n):
+      c = ex.choice("w%d" % k, len(ROBUST_MENU) + 1)
+      if c == len(ROBUST_MENU):
+        break
+      seq.append(ROBUST_MENU[c])
+    words = []
+    for w in seq:
+      words.append(w)
+      if params["doubled"] and 0x10 <= (w >> 8) <= 0x1F:
+        words.append(w)
+    text = build_text([words], True, False, [0])
+    doc, exc = call(ex, scc_reader.to_model, text, None)
+    det = {"_words": render_words(words, False)}
+    if exc:
+      if not isinstance(exc[0], ValueError):
+        ex.fail("C18:scc-reader-raises", dict(det, site=exc[1], exc=type(exc[0]).__name__))
+      return
+    ex.witness("document-returned")
+    from ttconv.isd import ISD
+    _, exc = call(ex, ISD.generate_isd_sequence, doc)
+    if exc:
+      ex.fail("C18:snapshot-raises", dict(det, site=exc[1], exc=type(exc[0]).__name__, tags=["scc-robust"]))
+
+
+register(SccRobustHarness())
